@@ -92,9 +92,13 @@ PosProgs == {[vars |-> AllDecls, stmts |-> <<st>>] : st \in PosStmts}
 \* ---- declaration order: an origin that uses a variable declared after it (unbound there), and the right order
 BalDecl == [type |-> "monetary", name |-> "bal", origin |-> [k |-> "call", name |-> "balance", args |-> <<Var("acc"), AstE(A)>>]]
 KeyDecl == [type |-> "string", name |-> "k", origin |-> [k |-> "call", name |-> "meta", args |-> <<Var("acc"), Str_("key")>>]]
+SelfDecl == [type |-> "account", name |-> "acc", origin |-> [k |-> "call", name |-> "meta", args |-> <<Var("acc"), Str_("key")>>]]
 OrderStmt == Send(FALSE, Var("bal"), LeafV, Dst)
 OrderProgs == {[vars |-> ds, stmts |-> <<OrderStmt>>] : ds \in {<<BalDecl, D("account", "acc")>>, <<D("account", "acc"), BalDecl>>,
                                                                  <<KeyDecl, BalDecl, D("account", "acc")>>, <<BalDecl, D("account", "acc"), KeyDecl>>}}
+         \* an origin that uses the very variable it defines
+         \cup {[vars |-> <<SelfDecl>>, stmts |-> <<Send(FALSE, Mon(20), LeafV, Dst)>>],
+               [vars |-> <<D("account", "acc"), SelfDecl>>, stmts |-> <<Send(FALSE, Mon(20), LeafV, Dst)>>]}
 
 \* ---- every allotment of up to three clauses over {1/2, 2/3, remaining, $p}, on either side (sums below, at and above
 \*      one, `remaining` anywhere and repeated, the same variable twice)
